@@ -45,6 +45,26 @@ def obj_classes():
             ("TriangularMesh", magpy.magnet.TriangularMesh.from_ConvexHull(points=[(0, 0, 0), (1, 0, 0), (0, 1, 0), (0, 0, 1)], polarization=(0, 0, 1)))]
 
 
+def capture_ctor(cls):
+    """items of the kwargs `MagicProperties.__init__` gets when `cls()` is called"""
+    from magpylib._src.defaults.defaults_utility import MagicProperties
+
+    seen = []
+    orig = MagicProperties.__init__
+
+    def spy(self, **kw):
+        if type(self) is cls and not seen:
+            seen.append(list(kw.items()))
+        orig(self, **kw)
+
+    MagicProperties.__init__ = spy
+    try:
+        cls()
+    finally:
+        MagicProperties.__init__ = orig
+    return seen[0] if seen else []
+
+
 def probe():
     from magpylib._src.defaults.defaults_classes import DefaultSettings
     from magpylib._src.defaults.defaults_utility import MagicProperties
@@ -76,17 +96,41 @@ def probe():
         inst = cls()
         props = list(inst._property_names_generator())
         ad = inst.as_dict()
-        info = classes[cls] = {"name": cls.__name__, "props": [], "others": sorted(a for a in dir(inst) if not a.startswith("_") and a not in props),
+        # non-property names `MagicProperties.__setattr__` does NOT reject with AttributeError, probed on deep copies of a
+        # new instance (after one deepcopy, so that copyreg's class attribute `__slotnames__` exists in every run): every
+        # name of dir(inst) that is not a property is assigned 1 and None; it is listed unless both raise AttributeError
+        # (since repo fix 3fc7703 method names are rejected; private slots `_color`, `__doc__`, `__module__`, the frozen
+        # flag are plain attributes and still assignable; `__dict__ = 1` is a TypeError, i.e. not a rejection of the name)
+        copy.deepcopy(inst)
+        others, methods = [], []
+        for a in dir(inst):
+            if a in props:
+                continue
+            if callable(getattr(cls, a, None)):
+                methods.append(a)
+            rejected = 0
+            for val in (1, None):
+                c = copy.deepcopy(inst)
+                try:
+                    setattr(c, a, val)
+                except AttributeError:
+                    rejected += 1
+                except Exception:  # noqa: BLE001
+                    pass
+            if rejected < 2:
+                others.append(a)
+        info = classes[cls] = {"name": cls.__name__, "props": [], "others": sorted(others), "methods": sorted(methods),
                                "ctor": [], "short": None, "mro": [c.__name__ for c in cls.__mro__],
                                "varkw": any(par.kind is par.VAR_KEYWORD for par in inspect.signature(cls.__init__).parameters.values())}
-        for pname, par in inspect.signature(cls.__init__).parameters.items():
-            if pname == "self" or par.kind is not par.POSITIONAL_OR_KEYWORD:
-                continue
+        # the keyword dictionary `MagicProperties.__init__` receives for `cls()`: the named parameters of the whole
+        # `super().__init__` chain in the order in which they arrive (innermost class first), with their defaults.  A
+        # keyword given by the caller takes the place of its parameter, everything else follows in the caller's order.
+        for pname, dflt in capture_ctor(cls):
             if pname not in props:
-                raise Refusal(f"{cls.__name__}.__init__ parameter {pname} is not a property")
-            if isinstance(par.default, MagicProperties) or isinstance(par.default, dict):
-                raise Refusal(f"{cls.__name__}.__init__ default of {pname} is an object")
-            info["ctor"].append((pname, None if par.default is None else idx(par.default)))
+                raise Refusal(f"{cls.__name__}: constructor keyword {pname} is not a property")
+            if isinstance(dflt, (MagicProperties, dict)):
+                raise Refusal(f"{cls.__name__}: constructor default of {pname} is an object")
+            info["ctor"].append((pname, None if dflt is None else idx(dflt)))
         for p in props:
             v = getattr(inst, p)
             if p not in ad:
@@ -253,6 +297,9 @@ def lean_text(P):
         ctor = "[" + ", ".join(f"({lkey(p)}, {lopt(d)})" for p, d in info["ctor"]) + "]"
         out.append(f"/-- class `{info['name']}` -/")
         out.append(f"def c{names[cls]} : Schema := .obj [\n  " + ",\n  ".join(ps) + f"]\n  {others} none {ctor} {'true' if info['varkw'] else 'false'}\n")
+    meths = sorted({m for info in classes.values() for m in info["methods"]})
+    out.append("/-- every callable attribute name of any of the property classes (methods, dunder methods) -/")
+    out.append("def methodNames : List Str := [" + ", ".join(lstr(m) + ".toList" for m in meths) + "]\n")
     out.append("/-- `DEFAULTS` (defaults_values.py) -/")
     out.append(f"def defaults : Tree := {ltree(P['defaults'])}\n")
     out.append("/-- class table: index 0 is `DefaultSettings`, then the style class of every object class -/")
